@@ -340,10 +340,12 @@ func reentrantTraverse(r rng, res *result, idx int64) {
 		touched[k] = true
 		muts++
 	}
+	gone := map[int]bool{} // deleted at some point during the traversal (possibly re-inserted)
 	del := func(k int) {
 		t.del(k)
 		delete(cur, k)
 		touched[k] = true
+		gone[k] = true
 		muts++
 	}
 	pMut := pick(r, []float64{0.05, 0.3, 0.8})
@@ -408,6 +410,11 @@ func reentrantTraverse(r rng, res *result, idx int64) {
 	for k := 0; k < n; k++ {
 		if !touched[k] && !seen[k] {
 			bad("Range misses a key that stayed present and untouched for the whole traversal", fmt.Sprintf("k%d (visitor mutates other keys)", k))
+			break
+		}
+		// a key that was only overwritten (never deleted) stayed present all along
+		if !gone[k] && !seen[k] {
+			bad("Range misses a key that stayed present for the whole traversal and was only overwritten meanwhile", fmt.Sprintf("k%d (overwritten by the visitor before its turn)", k))
 			break
 		}
 	}
